@@ -822,6 +822,15 @@ class Translator:
         # a call translated as returning by value (const T& results), or any other non-addressable expression
         return self.hoist(a, x)
 
+    def member_of_unbounded(self, x):
+        """is the lvalue text x a proper sub-object (root->f / root.f ...) of a variable whose record type holds
+        unbounded arrays?"""
+        m = re.match(r'^\(?\*?([A-Za-z_]\w*)\)?(->|\.)\w', x)
+        if not m or not self._lvalue_text(x.replace('(*', '').replace(')', '')) and not self._lvalue_text(x):
+            return False
+        rt = (self.var_types.get(m.group(1)) or '').rstrip(' *').rstrip()
+        return bool(rt) and rt.startswith('struct ') and self.has_unbounded(rt)
+
     def hoist(self, a, x):
         """a temporary bound to a reference parameter: materialised as a local before the statement"""
         p = a.get('_parent')
@@ -899,6 +908,12 @@ class Translator:
             dm = self.full_decl(ref)
             if o.startswith('VEC_AT(') and not me.get('isArrow'):
                 ptr = self.addr(obj, o, mutable=not dm['type']['qualType'].rstrip().endswith('const'))
+            elif ptr is not None and ptr == '&' + o and self.member_of_unbounded(o):
+                # CBMC cannot form the address of a member of a record that holds unbounded arrays: the sub-object is
+                # copied into a local for the statement (and back afterwards, unless the method is const)
+                ptr = self.hoist(obj, o)
+                if not dm['type']['qualType'].rstrip().endswith('const'):
+                    self.post.append('%s = %s;' % (o, ptr[1:]))
             if ptr is None:
                 ptr = self.hoist(obj, o)
             return self.call_extracted(cn, dm, ptr, i[1:])
@@ -1114,6 +1129,21 @@ class Translator:
                     return 'VEC_AT(%s, 0)' % o
                 if name == 'push_back':
                     return 'VEC_PUSH(%s, %s)' % (o, A(0))
+                if name == 'emplace_back':
+                    vk = self.tm.kinds.get(oct0)
+                    if vk and vk[0] == 'vec':
+                        et = vk[1]
+                        real = [a for a in args if a.get('kind') != 'CXXDefaultArgExpr']
+                        if et in SCALAR_C and len(real) == 1:
+                            return 'VEC_PUSH(%s, %s)' % (o, self.e(real[0]))
+                        cands = [cn for cn, d in self.ctor_decls.items()
+                                 if self._parent_struct(d) == et and len(self._ctor_params(cn)) == len(real)]
+                        if len(cands) == 1:
+                            cn = cands[0]
+                            self.cur.calls.add(cn)
+                            al = ', '.join(['&verif_tmp'] + [self.arg(a, p) for a, p in zip(real, self._ctor_params(cn))])
+                            return 'VEC_PUSH(%s, ({ %s verif_tmp; %s(%s); verif_tmp; }))' % (o, et, cn, al)
+                        self.abort(n, 'emplace_back: %d constructors of %s with %d parameters in the extraction set' % (len(cands), et, len(real)))
                 if name == 'clear':
                     return 'VEC_CLEAR(%s)' % o
                 if name in ('data', 'c_str') and not args:
@@ -1271,6 +1301,8 @@ class Translator:
         if rt not in SCALAR_C:
             self.abort(n, 'opaque getter %s returning non-scalar %s' % (q, rt))
         cn = 'OPQ_' + ident(self.qual_name(q))
+        if q.strip() == 'operator()':
+            cn = 'OPQ_call_' + ident(rt)      # a callable object (std::function member): one pure function per result type, keyed by the object
         ats = []
         if selfptr is not None:
             ats.append('const void *')
@@ -2318,7 +2350,9 @@ class Translator:
         rt = d['type']['qualType']
         rts = rt[:rt.find('(')].strip()
         f.ret = self.tm.c(rts)
-        if d['kind'] == 'CXXMethodDecl' and d.get('storageClass') != 'static':
+        if d['kind'] == 'CXXConstructorDecl':
+            f.ret = 'void'
+        if d['kind'] in ('CXXMethodDecl', 'CXXConstructorDecl') and d.get('storageClass') != 'static':
             st = self.method_self_type(d)
             if st is None:
                 raise ExtractError('cannot find the class of extern method ' + f.qual)
